@@ -459,8 +459,9 @@ func (e *engine) runBatch(id int, mp *modelproc.Proc, batch []Case) {
 				st.Disagree++
 			}
 			// attribution happens here, so that hits of a listed finding can never crowd out a new failure
-			if id := e.kf.match(e.cfg.Prop, &f); id != "" {
+			if id, sub := e.kf.matchClause(e.cfg.Prop, &f); id != "" {
 				st.KnownHits[id]++
+				st.KnownHits[id+" | "+sub]++
 				if st.KnownKept[id] < 10 {
 					st.KnownKept[id]++
 					st.Failures = append(st.Failures, f)
